@@ -50,6 +50,133 @@ def uncompared_noncache_fields(chk):
     return out
 
 
+def seeded_cache_fields(chk):
+    """R10.7: a pure-cache field that is outside __eq__/__hash__ (MarkerExpression._specifier) may be *seeded* at construction only
+    with the value the lazy getter would compute.  The only site where that is established is the bridge `from_specifier(name,
+    specifier)` passing its own `specifier` parameter; any other `_specifier=` seed (constructor or dataclasses.replace) attaches
+    state the cache key ignores, and memoised callers hand it to later equal-keyed calls."""
+    it = Interp(str(chk.src))
+    m = it.module("dep_logic.markers.single")
+    cache_fields = set()
+    for name, v in m.ns.items():
+        if isinstance(v, ClassInfo) and v.dc is not None:
+            for f in v.fields:
+                if not f[2] and f[0].startswith("_"):
+                    cache_fields.add(f[0])
+    chk.require(cache_fields, "no private compare=False cache field found (anchor MarkerExpression._specifier moved?)")
+    sites = 0
+    for rel, tree in iter_sources(chk):
+        mod = ("dep_logic." + rel[:-3].replace("/", ".")).replace(".__init__", "")
+        for q, fn in functions(tree):
+            params = {a.arg for a in fn.args.posonlyargs + fn.args.args + fn.args.kwonlyargs}
+            for n in ast.walk(fn):
+                if isinstance(n, ast.Call):
+                    for kw in n.keywords:
+                        if kw.arg in cache_fields:
+                            sites += 1
+                            okk = q.split(".")[-1] == "from_specifier" and isinstance(kw.value, ast.Name) and kw.value.id in params
+                            if okk:
+                                chk.ok("R10.7", key=(mod, q, n.lineno))
+                            else:
+                                chk.fail("R10.7", f"{mod}:{q}:seeds-{kw.arg}",
+                                         f"{q} seeds the cache field `{kw.arg}` with `{norm(ast.unparse(kw.value))}` (`{norm(ast.unparse(n))[:90]}`); the field is outside "
+                                         f"__eq__/__hash__, so an atom carrying a foreign specifier is indistinguishable from the plain one for every cache key")
+    chk.instance("R10.7", sites)
+
+
+MUTATORS = ("append", "extend", "insert", "pop", "remove", "clear", "sort", "reverse", "update", "setdefault", "add", "discard", "popitem", "__setitem__")
+
+
+def adhoc_state(chk, inventory):
+    """R10.5 module-level mutable containers written at call time (hand-rolled caches / registries);
+       R10.6 in-place mutation of a value obtained from a memoised source (cached_property / lru_cache result)."""
+    cached_attrs = {q.split(".")[-1] for m, q, f, k in inventory if k == "cached_property"}
+    cached_funcs = {q.split(".")[-1] for m, q, f, k in inventory if k != "cached_property"}
+    control = ast.parse("_memo = {}\ndef f(x):\n    if x not in _memo:\n        _memo[x] = x\n    return _memo[x]\n")
+    assert len(_scan_state(control, set(), set())[0]) == 1, "positive control of R10.5 failed"
+    chk.instance("R10.5")
+    for rel, tree in iter_sources(chk):
+        if rel.startswith("tags/"):
+            continue   # not reachable from parse_marker / marker & and | (C10's scope); tags have their own properties
+        mod = ("dep_logic." + rel[:-3].replace("/", ".")).replace(".__init__", "")
+        glob_hits, mut_hits = _scan_state(tree, cached_attrs, cached_funcs)
+        for q, name, node in glob_hits:
+            chk.fail("R10.5", f"{mod}:{q}:module-state:{name}",
+                     f"{q} writes the module-level container `{name}` at call time (`{norm(ast.unparse(node))[:80]}`): results can depend on earlier calls "
+                     f"(a hand-rolled cache is keyed by whatever the code chooses, not by the full input)")
+        for q, name, src, node in mut_hits:
+            chk.fail("R10.6", f"{mod}:{q}:mutates-memoised-value:{src}",
+                     f"{q} mutates in place a value obtained from the memoised `{src}` (`{norm(ast.unparse(node))[:80]}`): every later reader of the cache sees the change")
+    chk.ok("R10.5", key="scan")
+    chk.instance("R10.6")
+    chk.ok("R10.6", key="scan")
+
+
+def _scan_state(tree, cached_attrs, cached_funcs):
+    module_containers = set()
+    for st in tree.body:
+        tgt, val = None, None
+        if isinstance(st, ast.Assign) and len(st.targets) == 1 and isinstance(st.targets[0], ast.Name):
+            tgt, val = st.targets[0].id, st.value
+        elif isinstance(st, ast.AnnAssign) and isinstance(st.target, ast.Name) and st.value is not None:
+            tgt, val = st.target.id, st.value
+        if tgt and isinstance(val, (ast.Dict, ast.List, ast.Set, ast.DictComp, ast.ListComp, ast.SetComp)) or (
+                tgt and isinstance(val, ast.Call) and isinstance(val.func, ast.Name) and val.func.id in ("dict", "list", "set", "defaultdict", "OrderedDict")):
+            module_containers.add(tgt)
+    glob_hits, mut_hits = [], []
+    for q, fn in functions(tree):
+        local = {a.arg for a in fn.args.posonlyargs + fn.args.args + fn.args.kwonlyargs}
+        for n in ast.walk(fn):
+            if isinstance(n, (ast.Assign, ast.AnnAssign)):
+                for t in (n.targets if isinstance(n, ast.Assign) else [n.target]):
+                    if isinstance(t, ast.Name):
+                        local.add(t.id)
+        declared_global = {name for n in ast.walk(fn) if isinstance(n, ast.Global) for name in n.names}
+        local -= declared_global
+        # names bound to memoised values
+        memo_alias = {}
+        for n in ast.walk(fn):
+            if isinstance(n, ast.Assign) and len(n.targets) == 1 and isinstance(n.targets[0], ast.Name):
+                v = n.value
+                src = None
+                if isinstance(v, ast.Attribute) and v.attr in cached_attrs:
+                    src = v.attr
+                elif isinstance(v, ast.Call) and isinstance(v.func, ast.Name) and v.func.id in cached_funcs:
+                    src = v.func.id
+                elif isinstance(v, ast.Call) and isinstance(v.func, ast.Attribute) and v.func.attr in cached_funcs:
+                    src = v.func.attr
+                if src:
+                    memo_alias[n.targets[0].id] = src
+        for n in ast.walk(fn):
+            # stores / mutating calls
+            base = None
+            if isinstance(n, (ast.Assign, ast.AugAssign, ast.Delete)):
+                tgts = n.targets if isinstance(n, (ast.Assign, ast.Delete)) else [n.target]
+                for t in tgts:
+                    if isinstance(t, ast.Subscript) and isinstance(t.value, ast.Name):
+                        base = (t.value.id, n)
+                    elif isinstance(n, ast.AugAssign) and isinstance(t, ast.Name):
+                        base = (t.id, n)
+                    if base:
+                        _classify(base, q, module_containers, local, declared_global, memo_alias, glob_hits, mut_hits, augname=isinstance(t, ast.Name))
+                        base = None
+            elif isinstance(n, ast.Call) and isinstance(n.func, ast.Attribute) and n.func.attr in MUTATORS:
+                v = n.func.value
+                if isinstance(v, ast.Name):
+                    _classify((v.id, n), q, module_containers, local, declared_global, memo_alias, glob_hits, mut_hits)
+                elif isinstance(v, ast.Attribute) and v.attr in cached_attrs:
+                    mut_hits.append((q, v.attr, v.attr, n))
+    return glob_hits, mut_hits
+
+
+def _classify(base, q, module_containers, local, declared_global, memo_alias, glob_hits, mut_hits, augname=False):
+    name, node = base
+    if name in memo_alias:
+        mut_hits.append((q, name, memo_alias[name], node))
+    elif name in module_containers and (name not in local or name in declared_global):
+        glob_hits.append((q, name, node))
+
+
 def run(chk):
     chk.explanation = (
         "Def-use analysis over the AST of every memoised function: cache keys are the arguments' __eq__/__hash__; a result can depend on "
@@ -59,6 +186,9 @@ def run(chk):
     chk.rule("R10.2", "memoised functions neither return/embed nor read state that the cache key ignores", min_instances=3)
     chk.rule("R10.3", "no attribute store on shared instances outside constructors and the lazy-cache idiom", min_instances=3)
     chk.rule("R10.4", "string-keyed caches read nothing but their argument", min_instances=1)
+    chk.rule("R10.7", "cache fields outside the key are seeded only by the bridge with its own argument", min_instances=2)
+    chk.rule("R10.5", "no module-level mutable container is written at call time (hand-rolled caches)", min_instances=1)
+    chk.rule("R10.6", "values obtained from memoised sources are never mutated in place", min_instances=1)
     bad_fields = uncompared_noncache_fields(chk)
     chk.require(bad_fields or True, "")
     inventory = []
@@ -96,6 +226,26 @@ def run(chk):
         mparams = [p.arg for p in params if marker_like(p.annotation)]
         sparams = [p.arg for p in params if p.annotation is not None and ast.unparse(p.annotation) in ("str", "'str'")]
         chk.instance("R10.2")
+        spec_params = [p.arg for p in params if p.annotation is not None and "Specifier" in ast.unparse(p.annotation)]
+        if spec_params:
+            # specifier equality ignores the `simplified` text hint and the spelling of versions (3.10 == 3.10.0): a memoised
+            # function that renders text from such a parameter returns whatever spelling was seen first
+            renders = []
+            for n in ast.walk(fn):
+                if isinstance(n, ast.Call):
+                    f = n.func
+                    if isinstance(f, ast.Name) and f.id in ("str", "repr", "format") and n.args and isinstance(n.args[0], ast.Name) and n.args[0].id in spec_params:
+                        renders.append(n)
+                    if isinstance(f, ast.Attribute) and f.attr in ("to_specifierset", "__str__") and isinstance(f.value, ast.Name) and f.value.id in spec_params:
+                        renders.append(n)
+                if isinstance(n, ast.Attribute) and n.attr in ("simplified", "_simplified_form") and isinstance(n.value, ast.Name) and n.value.id in spec_params:
+                    renders.append(n)
+                if isinstance(n, ast.FormattedValue) and isinstance(n.value, ast.Name) and n.value.id in spec_params:
+                    renders.append(n)
+            if renders:
+                chk.fail("R10.2", f"{mod}:{q}:renders-text-from-equality-keyed-specifier",
+                         f"memoised {q} renders text from its specifier argument (`{norm(ast.unparse(renders[0]))}`); specifier equality ignores the "
+                         f"spelling of versions and the `simplified` hint, so the rendered result depends on which equal specifier was seen first")
         if not mparams:
             if sparams and len(sparams) == len(params):
                 # R10.4: reads nothing but its argument: no Global/Nonlocal, no os.environ / sys.* reads
@@ -184,6 +334,8 @@ def run(chk):
             chk.ok("R10.3", key=(mod, q, text))
         else:
             chk.fail("R10.3", f"{mod}:{q}:{text}", f"`{text}` mutates self outside a constructor and outside the lazy-cache idiom `if self._x is None: self._x = ...`")
+    adhoc_state(chk, inventory)
+    seeded_cache_fields(chk)
     chk.exhaustive = True
     chk.analysed = {"caches": [f"{m}:{q} ({k})" for m, q, f, k in inventory], "attribute_store_sites": len(stores),
                     "fields_outside_key": [f"{c}.{f}" for c, f in bad_fields]}
